@@ -6,7 +6,7 @@ rc=0
 for p in $(python3 -c "import json;print(' '.join(c['property_id'] for c in json.load(open('MANIFEST.json'))['checks']))"); do
   t0=$(date +%s)
   ./check "$p" "${1:-quick}" > "/tmp/runall_${RUNALL_TAG:-}$p.log" 2>&1; c=$?
-  echo "$p exit=$c $(( $(date +%s) - t0 ))s known=$(grep -c '^KNOWN-FINDING' /tmp/runall_${RUNALL_TAG:-}$p.log) $(tail -1 /tmp/runall_$p.log | cut -c1-100)"
+  echo "$p exit=$c $(( $(date +%s) - t0 ))s known=$(grep -c '^KNOWN-FINDING' /tmp/runall_${RUNALL_TAG:-}$p.log) $(tail -1 /tmp/runall_${RUNALL_TAG:-}$p.log | cut -c1-100)"
   [ $c != 0 ] && rc=1
 done
 exit $rc
